@@ -102,7 +102,7 @@ SPEC = {
     "group": G,
     "level": "translation_validation",
     "harnesses": hs,
-    "caps": {"jobs": 3, "mem_gb": 12, "quick_harness_timeout": 400, "thorough_harness_timeout": 1500},
+    "caps": {"jobs": 6, "mem_gb": 12, "quick_harness_timeout": 400, "thorough_harness_timeout": 1500},
     "functions": [
         "tracing_attributes::expand::{gen_function, gen_block} as *expanded code* (sync: span + guard before the block, "
         "ret/err closure wrapper; async: block moved into an async block wrapped in Instrumented; "
